@@ -519,19 +519,30 @@ inductive FromToDom : FromTo → Prop
       (hps : ∀ p ∈ ps, GenParamOK p ∧ (60 : UInt8) ∉ p.key ∧ (60 : UInt8) ∉ p.value) :
       FromToDom { nameAddr := none, addrSpec := some a, params := ps }
 
-theorem C14_from_to (f : FromTo) (h : FromToDom f) : parseFromTo f.encode = some f := by
+/-- From / To are written back literally: whatever text decodes comes back byte for byte (white space
+around ';' and '=', quoted display names, any URI). No domain restriction. -/
+theorem C14_from_to_lossless {s : Bytes} {f : FromTo} (h : parseFromTo s = some f) : f.encode = s :=
+  parseFromTo_encode h
+
+theorem C14_from_to_reencode (s : Bytes) :
+    (parseFromTo s).map FromTo.encode = (parseFromTo s).map (fun _ => s) := by
+  cases h : parseFromTo s with
+  | none => rfl
+  | some f => simp [parseFromTo_encode h]
+
+/-- Decoding extracts exactly the structure the text denotes (and keeps the text). -/
+theorem C14_from_to (f : FromTo) (h : FromToDom f) :
+    parseFromTo f.encodeCore = some { f with text := f.encodeCore } := by
+  apply parseFromTo_core
   cases h with
   | nameAddr na ps hna hps =>
-    simp only [FromTo.encode]
+    simp only [FromTo.encodeCore]
     exact parseFromTo_nameaddr_text na ps (C14_name_addr na hna) (hna.display.get 60)
       (hna.display.get 62) hna.addr_text (GenParamOK.lemma_form hps)
   | addrSpec a ps ha htext hps =>
-    simp only [FromTo.encode]
+    simp only [FromTo.encodeCore]
     exact parseFromTo_addrspec_text a ps (C14_addr_spec a ha) htext.2 htext.1
       (GenParamOK.lemma_form (fun p hp => (hps p hp).1)) (fun p hp => (hps p hp).2)
-
-theorem C14_from_to_reencode (f : FromTo) (h : FromToDom f) :
-    (parseFromTo f.encode).map FromTo.encode = some f.encode := by rw [C14_from_to f h]; rfl
 
 /-- `tag`: the value of the first `tag` parameter, nothing when there is none; the address is the
 one written (whichever form). -/
@@ -544,9 +555,9 @@ theorem C14_from_to_tag_absent (f : FromTo) (h : ∀ q ∈ f.params, q.key ≠ s
     f.getTag = none := getParam_none f.params _ h
 
 theorem C14_from_to_extracts (f : FromTo) (h : FromToDom f) :
-    ∃ d, parseFromTo f.encode = some d ∧ d.getTag = f.getTag ∧ d.getAddrSpec = f.getAddrSpec ∧
-      d.params = f.params :=
-  ⟨f, C14_from_to f h, rfl, rfl, rfl⟩
+    ∃ d, parseFromTo f.encodeCore = some d ∧ d.getTag = f.getTag ∧ d.getAddrSpec = f.getAddrSpec ∧
+      d.params = f.params ∧ d.encode = f.encodeCore :=
+  ⟨_, C14_from_to f h, rfl, rfl, rfl, parseFromTo_encode (C14_from_to f h)⟩
 
 /-- non-vacuity: `"Alice %22A%22" <sips:alice:…>;tag=a%3Bb;x` and `tel:+1-201-555-0123;tag=77` -/
 example : FromToDom { nameAddr := some { display := str "\"Alice %22A%22\" ", addr := .sip exampleUri },
@@ -558,33 +569,23 @@ example : FromToDom { nameAddr := none, addrSpec := some (.abs (str "tel:+1-201-
   refine .addrSpec _ _ ?_ (by decide +kernel) (by decide +kernel)
   show hasPrefix sipPrefix _ = false ∧ hasPrefix sipsPrefix _ = false
   decide +kernel
+/-- white space before ';' and around '=': the structure is extracted, the text is kept -/
+example : (parseFromTo (str "\"A. B.\" <sip:alice@ua1.test>\t;tag=ft1")).map (fun d => (d.getTag, d.encode))
+    = some (some (str "ft1"), str "\"A. B.\" <sip:alice@ua1.test>\t;tag=ft1") := by decide +kernel
 example : (parseFromTo (str "Bob <sip:bob@b.example:5062>;tag=a%3Bb;tag=2")).map
     (fun d => (d.getTag, d.getAddrSpec.bind AddrSpec.sipURI? |>.map (fun u => (u.user, u.host, u.port))))
     = some (some (str "a%3Bb"), some (str "bob", str "b.example", 5062)) := by decide +kernel
 
-example : (⟨none, none, [⟨str "x", []⟩, ⟨str "tag", str "a%3Bb"⟩, ⟨str "tag", str "2"⟩]⟩ : FromTo).getTag
+example : (⟨none, none, [⟨str "x", []⟩, ⟨str "tag", str "a%3Bb"⟩, ⟨str "tag", str "2"⟩], []⟩ : FromTo).getTag
     = some (str "a%3Bb") :=
   C14_from_to_tag _ [⟨str "x", []⟩] [⟨str "tag", str "2"⟩] (str "a%3Bb") rfl (by decide +kernel)
-example : (⟨none, none, [⟨str "x", []⟩]⟩ : FromTo).getTag = none :=
+example : (⟨none, none, [⟨str "x", []⟩], []⟩ : FromTo).getTag = none :=
   C14_from_to_tag_absent _ (by decide +kernel)
 
 /-- CSeq is re-encoded literally: whatever text decodes comes back byte for byte (leading zeros, wider
 white space between number and method included). No domain restriction. -/
-theorem C14_cseq_lossless {s : Bytes} {c : CSeq} (h : parseCSeq s = some c) : c.encode = s := by
-  unfold parseCSeq at h
-  split at h
-  · rename_i n m hf
-    cases ha : atoi n with
-    | none => simp [ha] at h
-    | some i =>
-      simp only [ha, Option.map_some, Option.some.injEq] at h
-      subst h
-      have hs : s ≠ [] := by
-        intro hnil
-        rw [hnil, show fields ([] : Bytes) = [] by decide] at hf
-        exact absurd hf (by simp)
-      simp [CSeq.encode, hs]
-  · exact absurd h (by simp)
+theorem C14_cseq_lossless {s : Bytes} {c : CSeq} (h : parseCSeq s = some c) : c.encode = s :=
+  parseCSeq_encode h
 
 theorem C14_cseq_reencode (s : Bytes) :
     (parseCSeq s).map CSeq.encode = (parseCSeq s).map (fun _ => s) := by
